@@ -94,7 +94,10 @@ def render_struct(case, tname):
             loc, typ = "%s [+%s]" % (start, _sum(case, nd["size"], "2")), "UInt:8[]"
         elif k == "arrn":
             sz = _sum(case, nd["size"], "3")
-            loc, typ = "%s [+%s]" % (start, sz), "UInt:8[%s]" % sz
+            # an array field can only be mentioned through $present(), which the type checker does
+            # not take for an integer inside an array length: fall back to the automatic length
+            auto = any(j <= case["n"] and _kind(case, j) in ("arr", "arrn") for j in nd["size"])
+            loc, typ = "%s [+%s]" % (start, sz), "UInt:8[%s]" % ("" if auto else sz)
         else:
             raise ValueError(k)
         ind = "  "
